@@ -138,6 +138,7 @@ func (t *Trace) Emit(v interface{}) {
 		panic(err)
 	}
 	t.N++
+	t.w.Flush() // the file is complete up to this event even if a goroutine of the server under test panics next
 }
 
 func (t *Trace) Close() {
